@@ -97,6 +97,19 @@ def vertex_source(g, s3):
     return s3[0]
 
 
+def vlevel_extras(g):
+    """sources named by non-POSITION inputs of a loaded <vertices> that are still in sourceById"""
+    from collada import source
+    alive = [x for x in g.sourceById.values() if isinstance(x, source.Source)]
+    out = []
+    for x in g.sourceById.values():
+        if isinstance(x, dict):
+            for sem, src_ in x.items():
+                if sem != 'POSITION' and src_ is not None and any(src_ is a for a in alive) and not any(src_ is o for o in out):
+                    out.append(src_)
+    return out
+
+
 def new_primitive(g, r, kind=None, vsrc=None):
     """a primitive over the geometry's current sources (None when it has no 3-component source)"""
     import numpy
@@ -105,10 +118,18 @@ def new_primitive(g, r, kind=None, vsrc=None):
     s2 = float_sources(g, 2)
     if not s3:
         return None
+    if vlevel_extras(g):
+        # a primitive created through the API names its inputs itself; next to a <vertices> that still
+        # carries normals / texcoords it would inherit those as well (a limitation of the model, see
+        # notes/C02.md): such a geometry gets new primitives only after those sources are removed
+        return None
     kind = kind or r.choice(['triangles', 'polylist', 'polygons', 'lines'])
     il = source.InputList()
-    vsrc = vsrc if vsrc is not None else vertex_source(g, s3)
-    r.choice(s3)      # (keeps the random stream independent of the choice above)
+    other = r.choice(s3)
+    if vsrc is None:
+        # mostly the source <vertices> stands for; sometimes the positions of this primitive come
+        # from another source of the mesh
+        vsrc = other if r.random() < 0.2 else vertex_source(g, s3)
     shared = r.random() < 0.35
     off = 0
     ins = [(0, vsrc)]
@@ -287,8 +308,12 @@ def new_instance(doc, st, r, what, allow_nodeinst=True):
         return scene.LightNode(r.choice(list(doc.lights)))
     if what == 'camera' and doc.cameras:
         return scene.CameraNode(r.choice(list(doc.cameras)))
-    if what == 'nodeinst' and doc.nodes and allow_nodeinst:
-        return scene.NodeNode(r.choice(list(doc.nodes)))
+    if what == 'nodeinst' and allow_nodeinst:
+        # a library node, or a top-level node of some visual scene (kept only where it is legal:
+        # see repair_instances)
+        cands = [t for t in list(doc.nodes) + [t for sc in doc.scenes for t in sc.nodes if is_plain_node(t)] if t.id]
+        if cands:
+            return scene.NodeNode(r.choice(cands))
     return None
 
 
@@ -414,6 +439,13 @@ def build_base(base, st):
     import collada
     if base['kind'] == 'file':
         return collada.Collada(os.path.join(data_dir(), base['name']))
+    if base['kind'] == 'xmldoc':
+        # an independently generated document (string templates, harness/gen/xmldocs.py): vertices-level
+        # inputs, strips and fans, forward instance_node references, odd number formats ...
+        from harness.gen import xmldocs
+        data, _ = xmldocs.gen_document(random.Random(base['seed']), base.get('size', 1), controllers=False,
+                                       animations=base.get('animations', False), prefixed=False)
+        return collada.Collada(io.BytesIO(data))
     if base['kind'] == 'exh':
         from collada import scene
         doc = collada.Collada()
@@ -444,7 +476,7 @@ def build_base(base, st):
     for _ in range(r.randint(0, size + 1)):
         doc.cameras.append(new_camera(st, r))
     for _ in range(r.randint(0, size)):
-        doc.nodes.append(new_node(doc, st, r, depth=1, allow_nodeinst=False))
+        doc.nodes.append(new_node(doc, st, r, depth=1))
     for _ in range(r.randint(1, 2)):
         doc.scenes.append(new_scene(doc, st, r))
     if r.random() < 0.85:
@@ -452,7 +484,8 @@ def build_base(base, st):
     if r.random() < 0.5:
         from collada import asset
         doc.assetInfo.title = 'T' + st.fresh('t')
-        doc.assetInfo.contributors.append(asset.Contributor(author='me', authoring_tool='tool'))
+        for k in range(r.choice([1, 2, 3, 4])):
+            doc.assetInfo.contributors.append(asset.Contributor(author='me%d' % k, authoring_tool='tool'))
     if base.get('split') is not None:
         # written, its libraries split in two, and LOADED again: a loaded document with two
         # library elements of one kind
@@ -504,6 +537,52 @@ def descendants(n):
     return out
 
 
+def reaches(start, goal):
+    """does the subtree of `start` (following instance_node) contain `goal`?"""
+    from collada import scene
+    seen, stack = set(), [start]
+    while stack:
+        n = stack.pop()
+        if n is goal:
+            return True
+        if id(n) in seen:
+            continue
+        seen.add(id(n))
+        if type(n) is scene.NodeNode:
+            stack.append(n.node)
+        elif is_plain_node(n):
+            stack.extend(n.children)
+    return False
+
+
+def repair_instances(doc):
+    """an edited document stays self-consistent: an instance_node names a library node or a top-level
+    node of the visual scene it is in, and never (indirectly) the node that contains it"""
+    from collada import scene
+    libnodes = list(doc.nodes)
+
+    def fix(n, top, allowed):
+        if not is_plain_node(n):
+            return
+        keep = []
+        for c in n.children:
+            if type(c) is scene.NodeNode:
+                ok = any(c.node is x for x in allowed) and not reaches(c.node, top)
+                if not ok:
+                    continue
+            keep.append(c)
+        if len(keep) != len(n.children):
+            n.children[:] = keep
+        for c in n.children:
+            fix(c, top, allowed)
+    for ln in libnodes:
+        fix(ln, ln, libnodes)
+    for sc in doc.scenes:
+        tops = [t for t in sc.nodes if is_plain_node(t)]
+        for t in tops:
+            fix(t, t, libnodes + tops)
+
+
 def cascade_remove(doc, lib, obj):
     """remove what refers to `obj` so that the edited document stays self-consistent"""
     from collada import scene
@@ -546,7 +625,7 @@ def new_lib_object(doc, st, r, lib):
     if lib == 'materials':
         return new_material(doc, st, r)
     if lib == 'nodes':
-        return new_node(doc, st, r, depth=1, allow_nodeinst=False)
+        return new_node(doc, st, r, depth=1)
     if lib == 'scenes':
         return new_scene(doc, st, r)
     if lib == 'images':
@@ -724,11 +803,51 @@ def apply_op(doc, st, op, out):
             # has to re-point <vertices>
             s = new_source(st, r, ('X', 'Y', 'Z'), r.randint(3, 5), 'newpos')
             g.sourceById[s.id] = s
-            g.primitives[:] = []
-            for _ in range(r.choice([1, 2])):
-                p_ = new_primitive(g, r, op.get('kind'), vsrc=s)
-                if p_ is not None:
-                    g.primitives.append(p_)
+            if op.get('some') and g.primitives:
+                # only some primitives move to the new position source
+                for i in range(len(g.primitives)):
+                    if i == op['pos'] % len(g.primitives) or r.random() < 0.3:
+                        p_ = new_primitive(g, r, op.get('kind'), vsrc=s)
+                        if p_ is not None:
+                            g.primitives[i] = p_
+            else:
+                g.primitives[:] = []
+                for _ in range(r.choice([1, 2])):
+                    p_ = new_primitive(g, r, op.get('kind'), vsrc=s)
+                    if p_ is not None:
+                        g.primitives.append(p_)
+        elif how == 'src_remove_many':
+            # several sources go at once (a run of neighbours in sourceById order, never the source
+            # <vertices> stands for); the primitives that used one of them are replaced by
+            # primitives over what is left
+            keep = vertex_source(g, float_sources(g, 3) or [None])
+            order, seen = [], set()
+            vpos = None
+            for inp_ in g.xmlnode.findall('{%s}mesh/{%s}vertices/{%s}input' % (NS, NS, NS)):
+                if inp_.get('semantic') == 'POSITION':
+                    vpos = inp_.get('source')
+            for x in g.sourceById.values():
+                if isinstance(x, source.Source) and id(x) not in seen and x is not keep and '#' + x.id != vpos:
+                    seen.add(id(x))
+                    order.append(x)
+            if order and keep is not None:
+                start = op['pos'] % len(order)
+                victims = order[start:start + max(2, op.get('n', 2))]
+                for x in vlevel_extras(g):
+                    # the sources named inside <vertices> go together (its stale inputs are neighbours)
+                    if not any(x is v for v in victims) and x is not keep and '#' + x.id != vpos:
+                        victims.append(x)
+                vids = set(id(v) for v in victims)
+                for k in [k for k, x in g.sourceById.items() if id(x) in vids]:
+                    del g.sourceById[k]
+                for i, p in enumerate(list(g.primitives)):
+                    if any(id(inp[4]) in vids for lst in p.sources.values() for inp in lst):
+                        g.primitives[i] = None
+                g.primitives[:] = [p for p in g.primitives if p is not None]
+                for _ in range(r.choice([0, 1, 1, 2])):
+                    p_ = new_primitive(g, r, op.get('kind'), vsrc=keep)
+                    if p_ is not None:
+                        g.primitives.insert(r.randint(0, len(g.primitives)), p_)
         elif how == 'attr':
             g.name = r.choice(['', 'renamedgeom', 'G3', g.name])
             g.double_sided = not g.double_sided
@@ -751,8 +870,7 @@ def apply_op(doc, st, op, out):
                 has_nodeinst = any(type(d) is _sc.NodeNode for d in descendants(c))
                 # an instance_node may not end up inside library_nodes (forward or cyclic references
                 # are the loader's business, not save's)
-                targets = [m for m in nodes if m is not n and not any(m is d for d in descendants(c))
-                           and not (has_nodeinst and any(m is d for d in lib_members))]
+                targets = [m for m in nodes if m is not n and not any(m is d for d in descendants(c))]
                 if targets:
                     m = targets[op['pos2'] % len(targets)]
                     n.children.remove(c)
@@ -762,8 +880,8 @@ def apply_op(doc, st, op, out):
 
             def make():
                 what = op.get('what', 'node')
-                c = new_instance(doc, st, r, what, allow_nodeinst=not in_library) if what != 'node' else None
-                return c if c is not None else new_node(doc, st, r, depth=2, allow_nodeinst=not in_library)
+                c = new_instance(doc, st, r, what) if what != 'node' else None
+                return c if c is not None else new_node(doc, st, r, depth=2)
             list_edit(n.children, dict(op, how=how[3:]), r, make)
         elif how == 'attr':
             n.id = st.fresh('renamednode')
@@ -914,8 +1032,9 @@ def apply_op(doc, st, op, out):
             if k < 0.3:
                 a.contributors.insert(r.randint(0, len(a.contributors)),
                                       asset.Contributor(author=r.choice(['a1', 'a2']), comments=r.choice([None, 'c'])))
-            elif k < 0.5 and a.contributors:
-                del a.contributors[r.randrange(len(a.contributors))]
+            elif k < 0.55 and a.contributors:
+                at = r.randrange(len(a.contributors))
+                del a.contributors[at:at + r.choice([1, 2, 2, 3])]
             elif a.contributors:
                 c = a.contributors[r.randrange(len(a.contributors))]
                 c.author = r.choice([None, 'edited author'])
@@ -1040,8 +1159,18 @@ def snap_value(v):
     if isinstance(v, material.Map):
         return {'map': [v.sampler.id, v.texcoord]}
     if isinstance(v, (tuple, list)):
-        return [float(x) for x in v]
+        return pad_color([float(x) for x in v])
     return float(v)
+
+
+def pad_color(v):
+    """the constructor's documented normalisation of a colour: missing components are 0, alpha 1"""
+    v = list(v)
+    while len(v) < 3:
+        v.append(0.0)
+    while len(v) < 4:
+        v.append(1.0)
+    return v
 
 
 def snap_inputs(p):
@@ -1099,7 +1228,9 @@ def snap_camera(c):
 
 def snap_effect(e):
     from collada import material
-    d = {'id': e.id, 'shadingtype': e.shadingtype, 'double_sided': bool(e.double_sided), 'opaque_mode': e.opaque_mode,
+    # the opaque mode is an attribute of <transparent>: without that property there is nothing to carry it
+    d = {'id': e.id, 'shadingtype': e.shadingtype, 'double_sided': bool(e.double_sided),
+         'opaque_mode': e.opaque_mode if e.transparent is not None else 'A_ONE',
          'props': {p: snap_value(getattr(e, p)) for p in e.supported}, 'params': [],
          'bumpmap': snap_value(e.bumpmap)}
     for p in e.params:
@@ -1207,6 +1338,8 @@ def read_prim_xml(p, vertices):
                 direct.append(src)      # a VERTEX input must go through a <vertices> element
             inputs.append([off, i.get('semantic'), src, st_])
     ps = [[int(x) for x in (e.text or '').split()] for e in p.findall(T('p'))]
+    if kind in ('triangles', 'lines', 'polylist'):
+        ps = ps[:1]         # these elements hold one <p>
     d = {'kind': kind, 'material': p.get('material'),
          'inputs': sorted(inputs, key=lambda x: (x[0], x[1], x[2], str(x[3]))),
          'index': [x for q_ in ps for x in q_], 'count': int(p.get('count'))}
@@ -1329,7 +1462,7 @@ def read_effect_xml(e):
             continue
         v = pn[0]
         if v.tag == T('color'):
-            props[p] = ftext(v)
+            props[p] = pad_color(ftext(v))
         elif v.tag == T('float'):
             props[p] = float(v.text)
         elif v.tag == T('texture'):
@@ -1409,6 +1542,11 @@ def close(a, b):
         return a is None and b is None
     if math.isnan(a) or math.isnan(b):
         return math.isnan(a) and math.isnan(b)
+    # COLLADA floats are single precision: beyond its range a token is an infinity
+    a = math.copysign(float('inf'), a) if abs(a) > 3.4028235e38 else a
+    b = math.copysign(float('inf'), b) if abs(b) > 3.4028235e38 else b
+    if math.isinf(a) or math.isinf(b):
+        return a == b
     return abs(a - b) <= 1e-6 * max(abs(a), abs(b)) + 1e-12
 
 
@@ -1539,10 +1677,13 @@ def check_file_vs_model(pid, model, filesnap):
             if 'data' in s and s['components'] and not (s['stride'] == len(s['components'])
                                                         and s['acount'] * s['stride'] == len(s['data'])):
                 fail('attribute', 'geometries.sources.accessor', 'accessor count/stride of %s disagree with the data' % s['id'])
+        through = [p for p in g['primitives'] if not p.get('direct_vertex')]
+        if pid == 'C06' and g['primitives'] and not through:
+            # <vertices> must stand for the positions of at least one primitive (the others may name
+            # their own position source)
+            fail('reference', 'geometries.primitives.vertices-indirection',
+                 'no primitive of %s takes its positions through the <vertices> element' % g['id'])
         for p in g['primitives']:
-            for src in (p.get('direct_vertex', []) if pid == 'C06' else []):
-                fail('reference', 'geometries.primitives.vertices-indirection',
-                     'a VERTEX input of %s names %r directly instead of a <vertices> element' % (g['id'], src))
             for inp in p['inputs']:
                 if inp[1] == 'VERTEX' and inp[2] not in [s['id'] for s in g['sources']]:
                     fail('reference', 'geometries.primitives.inputs', 'VERTEX input of %s does not resolve through <vertices> to a source' % g['id'])
@@ -1776,10 +1917,14 @@ def run_case(case, pid='C02', want_content=True):
     stage = 'build'
     try:
         doc = build_base(case['base'], st)
+        if case['base']['kind'] == 'gen' and case['base'].get('split') is None:
+            repair_instances(doc)
         stage = 'edit'
         for i, op in enumerate(case['ops']):
             stage = 'op %d %s' % (i, op['op'])
             apply_op(doc, st, op, out)
+            if op['op'] not in ('save', 'write'):
+                repair_instances(doc)
     except Exception as e:  # noqa
         saving = stage.endswith('save') or stage.endswith('write')
         out['fails'].append({'signature': '%s:%s:%s:%s' % (pid, 'save-raises' if saving else 'edit-raises',
